@@ -259,6 +259,16 @@ def skipLine : Option Resume → Nat
   | some (.line k) => k
   | _ => 0
 
+/-- `skip, = skip_stack.keys()` (0 when there is no skip stack). -/
+def skipIdxOf : Option Resume → Nat
+  | some (.node i _) => i
+  | _ => 0
+
+/-- `skip_stack = skip_stack[skip]` (the sub-stack handed to the first visited child). -/
+def subSkipOf : Option Resume → Option Resume
+  | some (.node _ sub) => sub
+  | _ => none
+
 /-- `if adjoining_margins: position_y += collapse_margin(adjoining_margins)` -/
 def lineStart (adj : List Rat) (posY : Rat) : Rat :=
   if adj.isEmpty then posY else posY + collapseMargin adj
@@ -394,46 +404,63 @@ def Geo.contentBoxY (g : Geo) : Rat := g.y + g.mt + g.bt + g.pt
 def Geo.borderBoxY (g : Geo) : Rat := g.y + g.mt
 def Geo.borderHeight (g : Geo) : Rat := g.h + g.pt + g.pb + g.bt + g.bb
 
-/-- The tail of `block_container_layout`, after the children loop.
+/-- Used geometry, returned `adjoining_margins` and `collapsing_through` computed by the tail of
+`block_container_layout`. -/
+structure FinishTail where
+  geo : Geo
+  adj : AdjOut
+  through : Bool
+  deriving Inhabited
+
+/-- The tail of `block_container_layout`, after the children loop (the box is kept): margins after the
+last child / of an empty box, decoration removal, used height.
 `b` = used values of `box` at that point, `bs` = local `bottom_space`, `posY`, `cur` = loop results. -/
-def finishContainer (c : Ctx) (st : PStyle) (b : BoxSt) (isStart : Bool) (pageIsEmpty : Bool) (bs : Rat)
+def finishTail (c : Ctx) (st : PStyle) (b : BoxSt) (bs : Rat)
+    (cwc : Bool) (dbd : Bool) (resume : Option Resume) (posY : Rat) (adjL : List Rat) (cur : List Rat)
+    (curIsL : Bool) (hasKids : Bool) : FinishTail :=
+  let fragmented := resume.isSome
+  let b := if cwc then { b with y := b.y + collapseMargin adjL - b.mt } else b
+  -- margins after the last child / of an empty box
+  let (posY, cur, curIsL, through) :=
+    if !hasKids then
+      let cm := collapseMargin cur
+      if (st.height = none || st.height = some 0) && st.minH = 0 && b.bt = 0 && b.pt = 0 && b.bb = 0 && b.pb = 0
+      then (posY, cur, curIsL, true)
+      else (posY + cm, ([] : List Rat), false, false)
+    else if st.height ≠ none then (posY, ([] : List Rat), false, false)
+    else (posY, cur, curIsL, false)
+  let (posY, cur, curIsL) :=
+    if b.bb ≠ 0 || b.pb ≠ 0 || st.isRoot then (posY + collapseMargin cur, ([] : List Rat), false)
+    else (posY, cur, curIsL)
+  -- new_box.remove_decoration(start=not is_start, end=box_is_fragmented and not discard)
+  let nb : BoxSt := if !st.clone && fragmented then { b with mb := 0, pb := 0, bb := 0 } else b
+  let contentY := nb.y + nb.mt + nb.bt + nb.pt
+  let h0 : Rat := match st.height with | none => posY - contentY | some h => h
+  let h : Rat :=
+    if !fragmented then
+      let capped := match st.maxH with | none => h0 | some m => if h0 ≤ m then h0 else m
+      if capped ≥ st.minH then capped else st.minH
+    else
+      let newH := c.pageBottom - bs - nb.y - (nb.mt + nb.mb + nb.bt + nb.bb + nb.pt + nb.pb)
+      if newH > h0 then (if dbd then newH + (b.pb + b.bb + b.mb) else newH) else h0
+  { geo := geoOf nb h, adj := if curIsL then .alias else .fresh cur, through := through }
+
+/-- The end of `block_container_layout`: a fragmented box that must not be is dropped (`None`), else
+the new box with its used geometry is returned. -/
+def finishContainer (c : Ctx) (st : PStyle) (b : BoxSt) (_isStart : Bool) (pageIsEmpty : Bool) (bs : Rat)
     (cwc : Bool) (dbd : Bool) (resume : Option Resume) (posY : Rat) (adjL : List Rat) (cur : List Rat)
     (curIsL : Bool) (nextPage : NextPage) (hasKids : Bool) (pageEnd : String)
     (mk : Geo → Frag) : LayoutResult :=
-  let fragmented := resume.isSome
-  if fragmented && avoidsPage st.brkInside && !pageIsEmpty then
+  if resume.isSome && avoidsPage st.brkInside && !pageIsEmpty then
     { frag := none, resume := none, nextPage := { brk := none, page := none }, adj := .fresh [],
       collapsingThrough := false, adjL := adjL }
   else
-    let b := if cwc then { b with y := b.y + collapseMargin adjL - b.mt } else b
-    -- margins after the last child / of an empty box
-    let (posY, cur, curIsL, through) :=
-      if !hasKids then
-        let cm := collapseMargin cur
-        if (st.height = none || st.height = some 0) && st.minH = 0 && b.bt = 0 && b.pt = 0 && b.bb = 0 && b.pb = 0
-        then (posY, cur, curIsL, true)
-        else (posY + cm, ([] : List Rat), false, false)
-      else if st.height ≠ none then (posY, ([] : List Rat), false, false)
-      else (posY, cur, curIsL, false)
-    let (posY, cur, curIsL) :=
-      if b.bb ≠ 0 || b.pb ≠ 0 || st.isRoot then (posY + collapseMargin cur, ([] : List Rat), false)
-      else (posY, cur, curIsL)
-    -- new_box.remove_decoration(start=not is_start, end=box_is_fragmented and not discard)
-    let nb : BoxSt := if !st.clone && fragmented then { b with mb := 0, pb := 0, bb := 0 } else b
-    let contentY := nb.y + nb.mt + nb.bt + nb.pt
-    let h0 : Rat := match st.height with | none => posY - contentY | some h => h
-    let h : Rat :=
-      if !fragmented then
-        let capped := match st.maxH with | none => h0 | some m => if h0 ≤ m then h0 else m
-        if capped ≥ st.minH then capped else st.minH
-      else
-        let newH := c.pageBottom - bs - nb.y - (nb.mt + nb.mb + nb.bt + nb.bb + nb.pt + nb.pb)
-        if newH > h0 then (if dbd then newH + (b.pb + b.bb + b.mb) else newH) else h0
+    let t := finishTail c st b bs cwc dbd resume posY adjL cur curIsL hasKids
     let np : NextPage := match nextPage.page with
       | none => { nextPage with page := some pageEnd }
       | some _ => nextPage
-    { frag := some (mk (geoOf nb h)), resume := resume, nextPage := np,
-      adj := if curIsL then .alias else .fresh cur, collapsingThrough := through, adjL := adjL }
+    { frag := some (mk t.geo), resume := resume, nextPage := np,
+      adj := t.adj, collapsingThrough := t.through, adjL := adjL }
 
 /-- The beginning of `block_level_layout` / `block_container_layout`, before the children loop:
 margin truncation after an unforced break, decoration removal on resumed boxes, `bottom_space`
@@ -579,13 +606,13 @@ def layoutBox (c : Ctx) (box : PBox) (idx : Nat) (y : Rat) (bs : Rat) (skip : Op
   match box with
   | .para id n lineH st =>
     let p := prepare c st y bs skip cbIsRoot pageIsEmpty adjL
-    let lineSkip : Option Resume := match skip with | some (.node _ sub) => sub | _ => none
+    let lineSkip : Option Resume := subSkipOf skip
     finishPara c st p pageIsEmpty id idx n
       (lineboxLayout c st p.b n lineH pageIsEmpty p.cur p.bs p.posY lineSkip p.dbd)
   | .block id st kids =>
     let p := prepare c st y bs skip cbIsRoot pageIsEmpty adjL
-    let skipIdx := match skip with | some (.node i _) => i | _ => 0
-    let subSkip : Option Resume := match skip with | some (.node _ sub) => sub | _ => none
+    let skipIdx := skipIdxOf skip
+    let subSkip : Option Resume := subSkipOf skip
     finishBlock c st p pageIsEmpty id idx
       (layoutKids c st kids 0 skipIdx p.bs pageIsEmpty
         { newChildren := [], posY := p.posY, adjL := p.adjL, cur := p.cur, curIsL := p.curIsL,
